@@ -13,13 +13,16 @@ import (
 
 	"github.com/anz-bank/sysl/pkg/eval"
 	"github.com/anz-bank/sysl/pkg/parse"
+	"github.com/anz-bank/sysl/pkg/sysl"
 	"github.com/sirupsen/logrus"
+	"google.golang.org/protobuf/proto"
 )
 
 type reply struct {
 	V     *Val   `json:"v"`
 	Scope []KV   `json:"scope"`
 	Err   string `json:"err,omitempty"`
+	Mod   string `json:"mod,omitempty"` // what differs in the module after the evaluation ("" = nothing)
 }
 
 // observation of one evaluation
@@ -27,7 +30,8 @@ type obs struct {
 	Exit1 bool   // the worker ended with exit status 1 (handlePanic)
 	Other string // any other abnormal end
 	V     *Val
-	Scope []KV // caller's scope afterwards, sorted by key
+	Scope []KV   // caller's scope afterwards, sorted by key
+	Mod   string `json:",omitempty"` // the module differs after the evaluation: what
 }
 
 func workerMain() {
@@ -71,8 +75,10 @@ func runReal(p *Prog) (r reply) {
 	for _, kv := range p.Scope {
 		sc[kv.Key] = toProtoVal(kv.V)
 	}
+	before := proto.Clone(mod).(*sysl.Module)
 	v := eval.EvaluateView(mod, "T", p.Main, sc)
 	r.V = fromProtoVal(v)
+	r.Mod = moduleDiff(before, mod)
 	for k, x := range sc {
 		r.Scope = append(r.Scope, KV{k, fromProtoVal(x)})
 	}
@@ -131,7 +137,7 @@ func (w *worker) eval(p *Prog) (obs, bool) {
 	if r.Err != "" {
 		return obs{Other: r.Err}, true
 	}
-	return obs{V: r.V, Scope: r.Scope}, true
+	return obs{V: r.V, Scope: r.Scope, Mod: r.Mod}, true
 }
 
 func (w *worker) dead() obs {
@@ -180,3 +186,35 @@ func runAll(progs []*Prog, par int) []obs {
 }
 
 func runOne(p *Prog) obs { return runAll([]*Prog{p}, 1)[0] }
+
+// moduleDiff: deep comparison of the module before and after an evaluation; names the first view that differs and
+// whether the only difference is the body's Type having been filled in from the view's return type
+func moduleDiff(before, after *sysl.Module) string {
+	if proto.Equal(before, after) {
+		return ""
+	}
+	for an, a := range after.Apps {
+		b := before.Apps[an]
+		if b == nil {
+			return "application " + an + " appeared"
+		}
+		for vn, v := range a.Views {
+			w := b.Views[vn]
+			if w == nil {
+				return "view " + vn + " appeared"
+			}
+			if proto.Equal(v, w) {
+				continue
+			}
+			if w.Expr != nil && v.Expr != nil && w.Expr.Type == nil && v.Expr.Type != nil && proto.Equal(v.Expr.Type, v.RetType) {
+				c := proto.Clone(v).(*sysl.View)
+				c.Expr.Type = nil
+				if proto.Equal(c, w) {
+					return "view-body-type-defaulted:" + vn
+				}
+			}
+			return "view " + vn + " differs"
+		}
+	}
+	return "module differs outside the views"
+}
